@@ -143,6 +143,24 @@ INVALID_SETTINGS = [
 ]
 
 
+def numeric_wrap_settings():
+    """decimal cost fields written as v + k*2^32 / v + 2^64 for a value v that would be valid: an implementation
+    that parses into a narrower type and wraps accepts them as v; the specification compares digit strings"""
+    out = []
+    for k in (2 ** 32, 2 ** 33, 3 * 2 ** 32, 2 ** 64, 2 ** 64 + 2 ** 32):
+        for v in (1000, 5000, 999999999):
+            out += ["$5$rounds=%d$saltstring" % (v + k), "$6$rounds=%d$saltstring" % (v + k)]
+        for v in (1, 7):
+            out += ["$md5$rounds=%d$saltstr" % (v + k), "$md5,rounds=%d$saltstr" % (v + k)]
+        # (sha1crypt has no upper bound: $sha1$4294967300$ is a valid request for 4.29e9 iterations, never run here)
+    out += ["$5$rounds=4294967296$s", "$6$rounds=4294967296$s", "$5$rounds=18446744073709551616$s", "$6$rounds=18446744073709552616$s",
+            "$md5$rounds=18446744073709551617$s"]
+    return out
+
+
+INVALID_SETTINGS += numeric_wrap_settings()
+
+
 def ynum(v, minv):
     """yescrypt's variable-length numeral for small values (one character for v - minv <= 47, else two)"""
     v -= minv
@@ -173,6 +191,10 @@ def yescrypt_param_sweep(rng, full=False):
                 for tt in (0, 1, 2, 3):
                     for tag in (("$y$", "$gy$") if (nl + r + p + tt) % 3 == 0 or full else ("$y$",)):
                         out.append(yescrypt_params(nl, r, p, tt, tag) + ysalt(rng, rng.choice((4, 8))))
+    # the boundaries of the pre-hash pass of yescrypt-RW: N/p >= 0x100 and (N/p)*r >= 0x20000 (16..48 MiB)
+    for nl, r, p in ((8, 512, 1), (8, 511, 1), (9, 512, 2), (9, 256, 1), (9, 255, 1), (10, 384, 3), (10, 385, 3), (7, 1024, 1)):
+        out.append(yescrypt_params(nl, r, p, 0, "$y$") + ysalt(rng, 8))
+    out.append(yescrypt_params(8, 512, 1, 0, "$gy$") + ysalt(rng, 8))
     for nl in (4, 6, 8):
         for p in (1, 2, 4):
             out.append("$7$" + B64[nl] + "/...." + B64[p] + "...." + salt(rng, 6))       # scrypt N, r=1, p
